@@ -1,4 +1,5 @@
 from itertools import count
+import math
 import networkx as nx
 import flowpaths.utils as utils
 # NOTE: Do NOT import flowpaths.stdigraph at module import time to avoid a circular
@@ -344,7 +345,11 @@ def check_flow_conservation(G: nx.DiGraph, flow_attr) -> bool:
                 return False
             in_flow += data[flow_attr]
 
-        if out_flow != in_flow:
+        # Integer flows are compared exactly; float sums are accumulated in adjacency order and may differ in the last bits
+        if isinstance(out_flow, int) and isinstance(in_flow, int):
+            if out_flow != in_flow:
+                return False
+        elif not math.isclose(out_flow, in_flow, rel_tol=1e-9, abs_tol=1e-9):
             return False
 
     return True
